@@ -329,6 +329,32 @@ Proof.
   apply (acquire_loop_refines i L' r (length (lkeys (locks (lat s) i))) s P LT); [lia | exact A].
 Qed.
 
+(* ---------- what recycle may forget ---------- *)
+(* latch.recycle(t) on slot sl changes the node of a key only by dropping it, and only if nobody holds it and its
+   maxCommitTS is at least 2 physical minutes older than t; held nodes and younger nodes are untouched *)
+Lemma recycle_rule L sl t k : qwf L -> nodeK sf (recycle_slot L sl t) k <> nodeK sf L k ->
+  nodeK sf (recycle_slot L sl t) k = None /\ sf k = sl /\
+  exists n, nodeK sf L k = Some n /\ nval n = None /\ (phys (nmax n) + expire_ms <= phys t)%N.
+Proof.
+  intros Q NE. rewrite recycle_nodeK in * by auto.
+  destruct (N.eqb_spec (sf k) sl) as [E|E]; [|congruence].
+  destruct (nodeK sf L k) as [n|] eqn:F; [|congruence].
+  destruct (keep_node t n) eqn:K; [congruence|]. split; auto. split; auto. exists n. split; auto.
+  unfold keep_node in K. destruct (nval n); [discriminate|]. split; auto.
+  unfold expired in K. destruct (N.leb_spec (phys (nmax n) + expire_ms) (phys t)); [auto | discriminate].
+Qed.
+(* the timestamps recycle is called with: the start ts of the acquiring lock (in-line, when the slot has >= 5 nodes),
+   or the commit ts (> start ts) of the lock run() just released (spawned task) *)
+Lemma recycle_inline_ts L i k : key_at (locks L i) = Some k ->
+  acquire_slot sf L i = acquire_core sf (maybe_recycle L (sf k) (lstart (locks L i))) i.
+Proof. intros K. unfold acquire_slot. rewrite K. reflexivity. Qed.
+Lemma recycle_spawn_ts l g t sl : In (t, sl) (rtasks (trigger l g)) -> In (t, sl) (rtasks g) \/ (t = lcommit l /\ (lstart l < lcommit l)%N).
+Proof.
+  unfold trigger. destruct (N.ltb_spec (lstart l) (lcommit l)); simpl; auto.
+  destruct (_ || _); simpl; auto. intros X. apply in_app_or in X. destruct X as [X|[X|[]]]; auto.
+  inversion X; subst. auto.
+Qed.
+
 (* ---------- the composite release() is the iteration of the atomic LRel steps ---------- *)
 Lemma release_step_facts s i wl L1 r1 : reach_any s -> sch s = SRel i wl -> release_slot sf (lat s) i = (L1, r1) ->
   r1 <> RPanic /\ S (lacq (locks L1 i)) = lacq (locks (lat s) i).
